@@ -61,11 +61,17 @@ def charge_conjugate_name(name: str, pdg_name: bool = False) -> str:
             return f"ChargeConj({name})"
 
     # Dealing only with EvtGen names at this stage
+    # A failing look-up means "no conjugate known"; running out of stack or memory does not
+    # (the answer is cached, so a wrong one would stay for the rest of the process)
     try:
         return Particle.from_evtgen_name(name).invert().evtgen_name
+    except (RecursionError, MemoryError):
+        raise
     except Exception:
         try:
             return EvtGenName2PDGIDBiMap[-EvtGenName2PDGIDBiMap[name]]
+        except (RecursionError, MemoryError):
+            raise
         except Exception:
             return f"ChargeConj({name})"
 
